@@ -103,11 +103,16 @@ pub struct SymRng {
 }
 impl SymRng {
     pub fn new(model: &str, _name: &str) -> SymRng {
-        let stream = with(|c| {
-            let s = c.ext_streams;
-            c.ext_streams += 1;
-            s
-        });
+        // a short-period RNG is the same faulty device in every run: one shared stream
+        let stream = if model == "period2" {
+            0xffff
+        } else {
+            with(|c| {
+                let s = c.ext_streams;
+                c.ext_streams += 1;
+                s
+            })
+        };
         SymRng { stream, ctr: 0, model: model.to_string() }
     }
     /// the same stream again from its start (a replayed stream)
